@@ -243,6 +243,12 @@ func (p *Proxy) Close() error {
 		if e := conn.Close(); e != nil {
 			err = multierr.Append(err, e)
 		}
+		// A tls.Conn that its handler is already closing (close_notify in flight, for up to
+		// five seconds if the peer does not read) ignores a second Close: close the socket
+		// underneath, so that it is closed when Close returns.
+		if tconn, ok := conn.(*tls.Conn); ok {
+			tconn.NetConn().Close()
+		}
 	}
 
 	return err
